@@ -62,6 +62,8 @@ def correspond(scenarios, stats=None, k1=None):
         if mine[0] != "new-ok":
             failures.append({"index": idx, "op_index": -1, "reason": "driver rejected cfg: " + mine[0], "protocol": True})
             continue
+        state_div = None
+        n_before = len(failures)
         for j, (op, rec, line) in enumerate(zip(scn["ops"], recs, mine[1:])):
             stats["ops"] = stats.get("ops", 0) + 1
             stats["op_" + op["op"]] = stats.get("op_" + op["op"], 0) + 1
@@ -71,7 +73,15 @@ def correspond(scenarios, stats=None, k1=None):
                 mout = S.parse_out(line)
                 pending = []
                 S.compare_op(op, run, rec, mout, stats, pending=pending)
-                S.compare_state(op, rec, mout, stats)
+                if state_div is None:
+                    try:
+                        S.compare_state(op, rec, mout, stats)
+                    except S.Mismatch as m:
+                        # the refinement relation is broken here; what the property talks about (rejections, arms,
+                        # outputs, sampler requests) is still compared on the rest of the history: a disagreement there
+                        # is the concrete failing input, this alone is not
+                        state_div = {"index": idx, "op_index": j, "reason": str(m), "model_line": line[:400], "state_only": True,
+                                     "impl": {"raised": rec["raised"], "result": repr(rec["result"])[:400]}}
                 for row in pending:
                     verdict = resolve_tie(scn, run, recs, j, row)
                     stats["knn_tie_" + verdict] = stats.get("knn_tie_" + verdict, 0) + 1
@@ -86,6 +96,8 @@ def correspond(scenarios, stats=None, k1=None):
                 failures.append({"index": idx, "op_index": j, "reason": "harness parse error %r on %r" % (e, line[:200]),
                                  "protocol": True})
                 break
+        if state_div is not None and len(failures) == n_before:
+            failures.append(state_div)
     return failures
 
 
